@@ -19,7 +19,8 @@ RULE = ('Generated fork/join programs with publish / publish-on-error / '
         'via latencies, id streams and row-order modes; ')
 FEATS = ('guards', 'joins', 'on_error', 'on_complete', 'errors', 'publish',
          'republish', 'nested_values', 'jinja', 'env', 'multi_inbound',
-         'global_publish', 'async', 'output', 'subwf', 'task_defaults')
+         'global_publish', 'async', 'output', 'subwf', 'task_defaults',
+         'with_items')
 FORCE = ('publish', 'joins')
 ASSUMPTIONS = [
     'the causal graph is the one the engine itself stored (triggered_by); '
